@@ -132,6 +132,16 @@ Theorem C01_grad_correct_distanceInv : forall cell pbc co e ex g1 g2 (s : SYS),
 Proof. exact cvc_grad_correct_distanceInv. Qed.
 Print Assumptions C01_grad_correct_distanceInv.
 
+(* distancePairs, element (i, j): with or without the minimum image of an orthorhombic cell (off the cuts) *)
+Theorem C01_grad_correct_distancePairs_element : forall cell pbc co e i j (s : SYS),
+  (i < length s)%nat -> (j < length s)%nat -> a_mass (atom_at Rops s i) <> 0 -> a_mass (atom_at Rops s j) <> 0 ->
+  let gi := GAtoms [i] None None true in let gj := GAtoms [j] None None true in
+  image_ok pbc cell (com_of s gi) (com_of s gj) ->
+  v3norm2 Rops (pdist Rops pbc cell (com_of s gi) (com_of s gj)) <> 0 ->
+  cvc_grad_correct cell (mkCvc co e (KDistance pbc) [gi; gj]) s.
+Proof. exact cvc_grad_correct_distancePairs_elem. Qed.
+Print Assumptions C01_grad_correct_distancePairs_element.
+
 Theorem C01_grad_correct_inertia : forall cell co e ids (s : SYS),
   ids_ok s ids -> ids <> [] ->
   cvc_grad_correct cell (mkCvc co e KInertia [self_centred ids]) s.
